@@ -328,6 +328,10 @@ type countingCtx struct {
 	fired bool
 }
 
+// BudgetCtx is a context that reports cancellation at the n-th poll: a reference search that a bogus
+// depth would turn into an endless one ends with an error instead (and the comparison is skipped).
+func BudgetCtx(n int) context.Context { return newCountingCtx(context.Background(), n) }
+
 func newCountingCtx(parent context.Context, at int) *countingCtx {
 	return &countingCtx{Context: parent, at: at, ch: make(chan struct{})}
 }
